@@ -206,6 +206,17 @@ func vEstablished(s *BgpServer, c *oc.Neighbor, families []bgp.Family) *peer {
 	p.peerInfo.Store(table.NewPeerInfo(p.fsm.gConf, c, c.State.PeerAs, c.Config.LocalAs, c.State.RemoteRouterId,
 		p.fsm.gConf.Config.RouterId, c.Transport.State.RemoteAddress, c.Transport.State.LocalAddress))
 	s.neighborMap[c.State.NeighborAddress] = p
+	// what a later real transition to Established (vTransition) negotiates from
+	caps := []bgp.ParameterCapabilityInterface{bgp.NewCapFourOctetASNumber(c.Config.PeerAs)}
+	for _, f := range families {
+		caps = append(caps, bgp.NewCapMultiProtocol(f))
+	}
+	my := uint16(bgp.AS_TRANS)
+	if c.Config.PeerAs < 65536 {
+		my = uint16(c.Config.PeerAs)
+	}
+	open, _ := bgp.NewBGPOpenMessage(my, 90, c.State.RemoteRouterId, []bgp.OptionParameterInterface{bgp.NewOptionParameterCapability(caps)})
+	p.fsm.recvOpen, p.fsm.conn = open, newVConn(nil, true)
 	return p
 }
 
